@@ -81,8 +81,12 @@ Definition judge_case (t : tok) : Z :=
     verdict (strs_eqb (map m_name ms) (map fst obs) && strs_eqb (map m_file ms) (map snd obs))
             (3000 + (if has_dup (map m_name ms) then 100 else 0) + bucket (length ms))
   else if kind =? 4 then
-    (* json collectFrugals order is observable through nothing but the encoder; reserved *)
-    -1
+    (* json collectFrugals: graph, root index; observed list of files *)
+    let g := build_graph (as_list (nth_tok 1 f)) in
+    let root := nth (Z.to_nat (as_int (nth_tok 2 f))) g dummy in
+    let obs := as_strs (nth_tok 3 f) in
+    let fs := snd (collect_frugals (S (length g)) root [] []) in
+    verdict (strs_eqb fs obs) (4000 + (if (length fs <? length g)%nat then 10 else 0) + bucket (length fs))
   else if kind =? 5 then
     (* GetOutputDir: lang, out components, has namespace, namespace, file name; observed components *)
     let lang := as_int (nth_tok 1 f) in
@@ -99,6 +103,24 @@ Definition judge_case (t : tok) : Z :=
     let od := as_strs (nth_tok 2 f) in
     let obs := map as_strs (as_list (nth_tok 3 f)) in
     verdict (paths_eqb (py_init_dirs root od) obs) (6000 + bucket (length obs))
+  else if kind =? 7 then
+    (* globals after a history of compiles in one process: list of [options; generated files],
+       observed globals (delimiter, gen, out, filedir, dryrun, recurse, verbose, |CompiledFiles|) *)
+    let hist := map (fun h => let q := as_list h in
+                               let o := as_list (nth_tok 0 q) in
+                               (mk_options (as_bytes (nth_tok 0 o)) (as_bytes (nth_tok 1 o)) (as_bytes (nth_tok 2 o))
+                                           (as_bytes (nth_tok 3 o)) false (negb (as_int (nth_tok 4 o) =? 0)) false,
+                                as_strs (nth_tok 1 q)))
+                    (as_list (nth_tok 1 f)) in
+    let obs := as_list (nth_tok 2 f) in
+    let g := run_compiles hist globals_init in
+    verdict (str_eqb (g_delim g) (as_bytes (nth_tok 0 obs)) && str_eqb (g_gen g) (as_bytes (nth_tok 1 obs)) &&
+             str_eqb (g_out g) (as_bytes (nth_tok 2 obs)) && str_eqb (g_filedir g) (as_bytes (nth_tok 3 obs)) &&
+             Bool.eqb (g_dryrun g) (negb (as_int (nth_tok 4 obs) =? 0)) &&
+             Bool.eqb (g_recurse g) (negb (as_int (nth_tok 5 obs) =? 0)) &&
+             Bool.eqb (g_verbose g) (negb (as_int (nth_tok 6 obs) =? 0)) &&
+             (Z.of_nat (length (g_compiled g)) =? as_int (nth_tok 7 obs)))
+            (7000 + bucket (length hist))
   else -1.
 
 Definition judge (cases : list tok) : list Z := map judge_case cases.
